@@ -134,7 +134,8 @@ def empty_kind(forms):
     return sorted(ks)[0] if len(ks) == 1 else (None if not ks else ("mixed", "mixed"))
 
 
-def check_forms(res, rid_child, rid_empty, forms, f, who, keyp):
+def check_forms(res, rid_child, rid_empty, forms, f, who, keyp, end_also=None):
+    """end_also(term) -> reason: another place the END may be read from because it is provably the same position"""
     nchild = nempty = 0
     done = set()
     for em, c, sp in forms:
@@ -144,8 +145,9 @@ def check_forms(res, rid_child, rid_empty, forms, f, who, keyp):
                 continue
             done.add("child")
             for part, ok, exp in (("start", c[1], "the start of its first child"), ("end", c[2], "the end of its last child")):
-                if ok:
-                    res.ok(rid_child, keyp + part, f.loc())
+                why = end_also(sp[part]) if (part == "end" and not ok and end_also is not None) else None
+                if ok or why:
+                    res.ok(rid_child, keyp + part, f.loc(), why)
                 else:
                     res.violation(rid_child, keyp + part, "%s: a reduced node %ss at %s, expected %s" % (
                         who, part, fmt(sp[part])[:140], exp), f.loc())
@@ -313,7 +315,28 @@ def r_glr(F, res):
                     res.violation(rid, key, "GLR shifter: " + msg, f.loc())
             break
     forms, g = glr_span_forms(F)
-    nchild, nempty = check_forms(res, rid, rid, forms, g, "GLR reducer", "reducer/")
+    # The reducing head's span is the span of the last content token (the shifter gives a head its token's span, reduced
+    # heads copy it, and - C13-R10 - the layout parser does not leave its own there), and every reduction path ends at that
+    # token or at an EMPTY node anchored at the same place: `head(start_head).span().end` IS the end of the last child. It is
+    # accepted as long as the span bracket around the layout parser holds; without it the two differ (former seeds C07-2,
+    # C13-4 showed exactly that, and stopped being behaviour changes with the D28 repair).
+    try:
+        nbr, badbr = rt.layout_span_bracket(F, F.one(rt.GLR + "find_lookaheads$"))
+    except Exception:      # noqa
+        nbr, badbr = 0, []
+    def head_end(t):
+        if not (nbr and not badbr):
+            return None
+        if isinstance(t, tuple) and t[0] == "field" and t[2] == "end" and is_call(t[1], "::span") and t[1][2]:
+            h = t[1][2][0]
+            if isinstance(h, tuple) and h[0] == "call" and mir.strip_generics(h[1]).endswith("GssGraph::head") and len(h[2]) > 1:
+                who = h[2][1]
+                if mir.contains(who, lambda x: x == ("var", "start_head")) or has_field(who, "start", "Reduction") or \
+                        any(mir.strip_generics(c[1]).endswith("GssGraph::start") for c in mir.calls_in(who)):
+                    if not mir.contains(who, lambda x: isinstance(x, tuple) and x[0] == "field" and x[2] == "root_head"):
+                        return "end of the reducing head's span = end of the last content token (span bracket C13-R10 holds)"
+        return None
+    nchild, nempty = check_forms(res, rid, rid, forms, g, "GLR reducer", "reducer/", end_also=head_end)
     if not nchild:
         res.anchor_lost(rid, "non-empty span construction in the GLR reducer not found", g.loc())
     k = empty_kind(forms)
